@@ -40,7 +40,7 @@ type Session struct {
 	Reqs    []Req  `json:"reqs"`
 }
 
-var subFilters = []string{"a/b/", "b/a/", "a/a/", "b/b/", "a/", "a/b/c/", "x/y/", "y/x/", "a/+/", "+/b/"}
+var subFilters = []string{"a/b/", "b/a/", "a/a/", "b/b/", "a/", "a/b/c/", "x/y/", "y/x/", "a/+/", "+/b/", "$share/g1/a/b/", "$share/g2/x/y/"}
 
 var families = [][]string{{"a/b/", "b/a/"}, {"a/a/", "b/b/"}, {"x/y/", "y/x/"}, {"a/b/c/", "b/c/a/", "c/a/b/"}, {"a/a/b/", "b/", "c/c/b/"},
 	{"a/b/c/", "a/c/b/", "b/a/c/", "c/b/a/"}}
